@@ -68,6 +68,11 @@ TEXT = {
         "level_text": "Exploration: after the generated cut ServeNostr must return within 5 s and the goroutines with a mocrelay frame, router registry and gauges must be back to baseline; for every generated send timeout all three ping settings are run against a non-reading client.",
         "level_note": "'Promptly' is a time bound two orders of magnitude above normal latency. Goroutine baseline is taken per case after handler construction (SQLite's bulk inserter is handler-lifetime). Hook: RouterHandler.VerifSubscriptionCount (tag verif).",
     },
+    "C20": {
+        "technique": "property-based testing (rapid): generated header combinations x mux configurations through httptest (real WebSocket dial for the upgrade route) with an expectation of the served document built independently from the configuration struct; generated NIP-11 documents round-tripped with structural deep equality",
+        "level_text": "Exploration over header/configuration combinations and NIP-11 documents; the document oracle is a generic JSON value constructed by the harness from the generated configuration (omitempty semantics), not the code's own encoder.",
+        "level_note": "Near-miss Accept spellings (parameters, case, lists) may be routed to the document or to the default handler (statement is about the exact value). Empty Upgrade header not generated.",
+    },
     "C10": {
         "technique": "property-based testing (rapid): grammar-generated wire texts with near-miss mutations against a no-panic / completeness / decode-encode-decode oracle, value round trips for all 14 types, repository corpus replay; native go fuzz target in the thorough tier",
         "level_text": "Exploration: tens of thousands of generated and mutated JSON texts per run go through ParseClientMsg and json.Unmarshal of all 14 exported types (no panic, complete value, idempotent re-decode), and generated values of every type are round-tripped; thorough adds a coverage-guided fuzz campaign with the same oracle inside the target.",
